@@ -4,10 +4,10 @@ package interp
 // RunPath (one symbolic path of one harness).
 
 import (
-	"os"
 	"fmt"
 	"go/token"
 	"go/types"
+	"os"
 	"runtime"
 	"sort"
 	"strings"
